@@ -1,2 +1,3 @@
 -- Root of the library: every property file (and through them the model, spec and proofs).
 import Revm.Props.C03
+import Revm.Props.C05
